@@ -163,7 +163,7 @@ impl Scenario for MatchScenario {
 						FeOp::Call | FeOp::LateCall | FeOp::AbandonCall => format!("\"r{k}\""),
 						FeOp::Subscribe | FeOp::SubscribeDrop => format!("Subscription(Str(\"S{k}\"))"),
 						FeOp::Batch(n) | FeOp::LateBatch(n) => format!("[{}]", (0..*n).map(|j| format!("\"r{k}.{j}\"")).collect::<Vec<_>>().join(",")),
-						FeOp::Notif => "sent".into(),
+						FeOp::Notif | FeOp::RegisterNotif => "sent".into(),
 					};
 					// batch summaries carry `#s..f..o..` after the entry list; C03 compares the entries
 					let r_full = r.clone();
